@@ -318,3 +318,88 @@ def sweep_c13(tier, seed):
         first.setdefault(v["name"], v)
     return {"status": "violation" if viol else "ok", "cases": cases, "distinct": cases, "violations": list(first.values()),
             "samples": [{"subset_seed": seed * 4111}], "kind": "bounded-native"}
+
+
+# --------------------------------------------------------------------------------------
+# C12: level-limited loads
+# --------------------------------------------------------------------------------------
+def level_case(seed):
+    import contextlib
+    import io
+
+    import numpy as np
+    import osyris
+
+    rw = _writer()
+    rng = random.Random(seed)
+    ndim = rng.choice([1, 2, 3])
+    ncpu = rng.choice([1, 2, 3])
+    levelmin = 2
+    levelmax = rng.choice([3, 4])
+    hydro_vars = ["density", "pressure"]
+    tmp = tempfile.mkdtemp(prefix="c12_")
+    try:
+        octs = rw.build_tree(ndim, levelmin, levelmax, rng=rng, ncpu=ncpu, variables=hydro_vars, refine_fraction=0.5)
+        rw.write_output(tmp, 1, octs, ndim=ndim, ncpu=ncpu, levelmin=levelmin, levelmax=levelmax, hydro_vars=hydro_vars,
+                        ghosts=rw.random_ghosts(octs, ncpu, rng) if ncpu > 1 else None)
+        desc = {"seed": seed, "ndim": ndim, "ncpu": ncpu, "levels": [levelmin, levelmax]}
+        for kind in ("le", "lt", "window"):
+            k = rng.randint(levelmin, levelmax)
+            if kind == "le":
+                f, L, acc = (lambda l, k=k: l <= k), k, (lambda l, k=k: l <= k)
+            elif kind == "lt":
+                if k <= levelmin:
+                    k = levelmin + 1
+                f, L, acc = (lambda l, k=k: l < k), k - 1, (lambda l, k=k: l < k)
+            else:
+                f, L, acc = (lambda l, k=k: (l > k - 2) & (l < k + 1)), k, (lambda l, k=k: k - 2 < l < k + 1)
+            with contextlib.redirect_stdout(io.StringIO()):
+                ds = osyris.RamsesDataset(1, path=tmp).load(select={"mesh": {"level": f}})
+            if ds.meta["lmax"] != L:
+                return {"what": "%s %d: meta lmax %s, highest accepted level %d" % (kind, k, ds.meta["lmax"], L), "input": desc}
+            exp = rw.expected_mesh(octs, ndim=ndim, ncpu=ncpu, levelmax=levelmax, hydro_vars=hydro_vars, lmax=L)
+            keep = np.array([acc(int(l)) for l in exp["level"]], dtype=bool)
+            mesh = ds["mesh"]
+            n = int(keep.sum())
+            if (n == 0 and len(mesh.keys()) != 0 and mesh.shape != (0,)) or (n > 0 and mesh.shape != (n,)):
+                return {"what": "%s %d: %s rows, truncated tree has %d" % (kind, k, mesh.shape, n), "input": desc}
+            if n == 0:
+                continue
+            for key in ("level", "dx", "density", "pressure"):
+                if not np.allclose(np.asarray(mesh[key].values, float), np.asarray(exp[key], float)[keep], rtol=1e-12):
+                    return {"what": "%s %d: variable %s differs from the truncated tree" % (kind, k, key), "input": desc}
+            if kind in ("le", "lt"):
+                vol = float((np.asarray(mesh["dx"].values, float) ** ndim).sum())
+                if abs(vol - 1.0) > 1e-9:
+                    return {"what": "%s %d: covered volume %.6f of the unit domain (holes or overlaps)" % (kind, k, vol), "input": desc}
+        return None
+    finally:
+        shutil.rmtree(tmp, ignore_errors=True)
+
+
+def replay_level(case, model, rec):
+    for s in range(8):
+        try:
+            r = level_case(1200 + s)
+        except Exception as e:
+            r = {"what": "exception %r" % (e,), "input": {"seed": 1200 + s}}
+        if r:
+            return {"reproduced": True, "input": r["input"], "observed": r["what"]}
+    return {"reproduced": False}
+
+
+def sweep_c12(tier, seed):
+    n = 8 if tier == "quick" else 120
+    viol = []
+    for k in range(n):
+        try:
+            r = level_case(seed * 2003 + k)
+        except Exception as e:
+            import traceback
+
+            r = {"what": "exception %r %s" % (e, traceback.format_exc(limit=3)), "input": {"seed": seed * 2003 + k}}
+        if r:
+            viol.append({"name": "C12.native.level_load", "input": r["input"], "observed": r["what"]})
+            break
+    return {"status": "violation" if viol else "ok", "cases": n * 3, "distinct": n * 3, "violations": viol,
+            "samples": [{"seed": seed * 2003}], "kind": "bounded-native"}
